@@ -10,6 +10,8 @@ whose interleaving with the victim is explored with a preemption bound. Also (C0
 import json
 import os
 import shutil
+import signal
+import subprocess
 import tempfile
 import time
 
@@ -87,6 +89,22 @@ def scen(kind, path, flmod, inherited=None):
             if ok:
                 hold(env, api)
                 lk.release()
+        elif kind == 'helper':
+            # a daemon-like holder (no stdin: the lock file gets descriptor 0) that launches a long-running
+            # helper program while it holds the lock; the helper outlives the holder
+            try:
+                os.close(0)
+            except OSError:
+                pass
+            lk = FileLock(path)
+            ok = lk.acquire()
+            api.result(ok)
+            if ok:
+                p = subprocess.Popen(['/bin/sleep', '300'], close_fds=False)
+                with open(path + '.helper', 'w') as f:
+                    f.write(str(p.pid))
+                hold(env, api)
+                lk.release()
         elif kind == 'nb':
             lk = FileLock(path)
             ok = lk.acquire(False)
@@ -125,6 +143,22 @@ def fresh_probe(flmod, path):
     return data == b'1'
 
 
+def reap_helper(path):
+    try:
+        with open(path + '.helper') as f:
+            pid = int(f.read())
+    except (OSError, ValueError):
+        return
+    try:
+        os.kill(pid, signal.SIGKILL)
+    except OSError:
+        pass
+    try:
+        os.unlink(path + '.helper')
+    except OSError:
+        pass
+
+
 def run_world(flmod, w, path, prefix=(), expect=None):
     # every execution starts from a pristine lock file (a change that writes to / unlinks the file must
     # not leak state into the next execution)
@@ -152,10 +186,13 @@ def run_world(flmod, w, path, prefix=(), expect=None):
             if not fresh_probe(flmod, path):
                 return ('gave_up_but_keeps_the_lock', f'process slot {c.slot} ({c.name}) reported a failed acquire, '
                                                       f'all other processes are gone, yet the lock file is locked')
-    x = px.run_processes(flmod, progs, prefix, expect, kill=kill, on_report=on_report)
-    x.vslot = vslot
-    # after everything: a fresh process must be able to take the lock immediately
-    x.fresh_ok = fresh_probe(flmod, path)
+    try:
+        x = px.run_processes(flmod, progs, prefix, expect, kill=kill, on_report=on_report)
+        x.vslot = vslot
+        # after everything: a fresh process must be able to take the lock immediately
+        x.fresh_ok = fresh_probe(flmod, path)
+    finally:
+        reap_helper(path)
     if inherited is not None:
         inherited._lock_file_fd = None
         idle = getattr(inherited, '_idle_fd', None)
@@ -187,7 +224,7 @@ def check(x, w):
     for slot, name, state, reports in x.kids:
         if slot == x.vslot and w['kill'] is not None:
             continue
-        if name.split(':')[1] in ('block', 'nested', 'with', 'inherited') and state == 'done':
+        if name.split(':')[1] in ('block', 'nested', 'with', 'inherited', 'helper') and state == 'done':
             got = [e for e in x.log if e[1] == slot and e[2] == 'A']
             if not got or got[0][3] != 1:
                 bad.append(('blocking_survivor_failed', f'{name} finished without acquiring; log {x.log}'))
@@ -262,6 +299,10 @@ def plan(tier):
                 nshard = 4
                 for s in range(nshard):
                     items.append(('kill', v, cs, order, 0 if q or len(cs) > 1 else 1, (s, nshard)))
+    # a holder without stdin that launched a helper program which outlives it
+    items.append(('kill', 'helper', [], 'victim_first', 0, None))
+    for s in range(2):
+        items.append(('kill', 'helper', ['block'], 'victim_first', 0, (s, 2)))
     # C02 cross-process clause: no kill, 2..3 processes, all interleavings
     for progs in (['block', 'block'], ['block', 'timed_long'], ['with', 'ctx'], ['nested', 'nb'],
                   ['block', 'block', 'block'], ['inherited', 'block']):
@@ -279,7 +320,7 @@ def main(tier):
     return common.finish(
         PID, tier, total, t0,
         rule=('victim scenarios {blocking, timed vs busy lock, reentrant nested, with, acquire_ctx, lock object '
-              'pre-used by the parent before fork} x SIGKILL at every report index of the victim (every line of '
+              'pre-used by the parent before fork, holder without stdin that launched a long-lived helper program} x SIGKILL at every report index of the victim (every line of '
               'aiuti/filelock.py it executes + flock/sleep operations) x contender sets {none, blocking, timed, two '
               'blocking, ...} started before/after the victim x all schedules of the real processes with <= PB '
               'preemptions (and <= 1 non-default choice at blocking points); plus kill-free 2..3 process worlds '
